@@ -74,6 +74,14 @@ pub fn prop(id: &str) -> (ScreenProp, u64, u64) {
                         let mut b = multi;
                         b.bottom = true;
                         b
+                    }, 2), ("multi-small-terminal", {
+                        // terminals too short for all bars: log lines must survive frames that are cut
+                        let mut t = GenOpts::multi();
+                        t.log_weight = 3;
+                        t.widths = vec![12, 20, 40];
+                        t.heights = Some(vec![2, 3, 4, 5, 6]);
+                        t.max_bars = 8;
+                        t
                     }, 2), ("single-exhausted-limiter", {
                         let mut l = single;
                         l.hz = vec![Some(1), Some(1), Some(3)];
